@@ -6,3 +6,7 @@
 pub(crate) mod util;
 #[path = "/verif/kani/lib/c18.rs"]
 mod c18;
+#[path = "/verif/kani/lib/c19.rs"]
+mod c19;
+#[path = "/verif/kani/lib/c13.rs"]
+mod c13;
